@@ -522,6 +522,10 @@ def check(ctx):
     check_slots(ctx)
     check_generated_sync(ctx)
     check_constructor(ctx)
+    # Round 5: the collected sync hooks are the hooks of their own fields -- a wrapper made in the
+    # collecting loop that reads the loop's variables late makes every hook sync the last field
+    from .c08 import check_late_binding
+    check_late_binding(ctx, rule='R13-hooks', clause='e')
     for d in D.get_drivers(ctx.repo):
         ctx.unit('drivers')
         D.check_hooks_order(ctx, 'R13-hooks', d)
